@@ -466,6 +466,33 @@ theorem views_agree {r : Ring Node} (hs : Sorted r) (S : List Strategy) (tok : I
       · rw [hord, hiter]; exact (ntsOrdered_spec hs repf hk' tok).1
       · rw [hord]; exact (ntsOrdered_spec hs repf hk' tok).2
 
+/-- The unrestricted NTS replica set is, as a set, the union over the strategy's datacenters of the stated
+per-datacenter rule (datacenters of the strategy that are absent from the ring contribute nothing, ring
+datacenters absent from the strategy neither). -/
+theorem nts_unrestricted_eq_spec {r : Ring Node} (hs : Sorted r) (S : List Strategy) (tok : Int)
+    (repf : List (Nat × Nat)) (hk : (repf.map (·.1)).Nodup) (n : Node) :
+    n ∈ (replicasForToken (locOf r S) tok (.nts repf) none).iter (locOf r S) ↔
+      ∃ e ∈ repf, n ∈ specNtsDc r tok e.1 e.2 := by
+  have hN := fun t d rf => getNts_precompute hs S t d rf
+  have hiter : (ReplicaSet.chainedNts repf tok).iter (locOf r S) = ntsIter r repf tok := by
+    simp only [ReplicaSet.iter, hN, Locator.datacenters, ntsIter]
+  simp only [replicasForToken]
+  rw [hiter, ← mem_ntsAll_iff_mem_ntsIter r repf hk tok n]
+  unfold ntsAll
+  rw [List.mem_flatMap]
+  constructor
+  · rintro ⟨e, he, hn⟩; exact ⟨e, he, by rw [← nts_eq_spec hs]; exact hn⟩
+  · rintro ⟨e, he, hn⟩; exact ⟨e, he, by rw [nts_eq_spec hs]; exact hn⟩
+
+/-- `LocalStrategy` and unknown strategies are answered as SimpleStrategy with RF 1; `get_token_endpoints` is the
+iteration of the keyspace's unrestricted replica set (`LocalStrategy` for an unknown keyspace). -/
+theorem fallback_eq_simple1 (loc : Locator) (tok : Int) (dc : Option Nat) :
+    replicasForToken loc tok .localStrategy dc = replicasForToken loc tok (.simple 1) dc ∧
+    replicasForToken loc tok .other dc = replicasForToken loc tok (.simple 1) dc ∧
+    (∀ strat, tokenEndpoints loc (some strat) tok = (replicasForToken loc tok strat none).iter loc) ∧
+    tokenEndpoints loc none tok = (replicasForToken loc tok (.simple 1) none).iter loc := by
+  refine ⟨?_, ?_, fun _ => rfl, rfl⟩ <;> cases dc <;> rfl
+
 /-- The assertion in the ring-ordered iterator ("all_replicas somehow contained a node that wasn't present in
 the global ring") can never fire: every replica is a ring member. -/
 theorem ordered_assert_unreachable (r : Ring Node) (repf : List (Nat × Nat)) (tok : Int) (n : Node)
